@@ -450,11 +450,14 @@ func (w *totalWorker) one(m *method, in, backup []byte, d *csproto.Decoder, fast
 		// linear in the input with a generous constant: a packed list of 1-byte varints becomes 8-byte elements, and
 		// append-growth of the result slice allocates a multiple of the final size in total (measured: 89 bytes per
 		// input byte for 4 KiB of packed uint64). The defect class in view is gigabytes for a handful of bytes.
-		limit := uint64(256*len(in) + 64<<10)
+		// The runtime accounts small allocations to /gc/heap/allocs:bytes in bulk, when a span is exhausted: one call can
+		// be charged a whole span (tens of KiB) of earlier small allocations. Hence the constant of 256 KiB and the
+		// minimum over five measurements (a false alarm of 65 KiB against the earlier 64 KiB constant was seen once).
+		limit := uint64(256*len(in) + 256<<10)
 		if alloc > limit {
-			// re-measure twice on a fresh decoder; take the minimum
+			// re-measure four times on a fresh decoder; take the minimum
 			minAlloc := alloc
-			for i := 0; i < 2; i++ {
+			for i := 0; i < 4; i++ {
 				d2 := csproto.NewDecoder(in)
 				if fast {
 					d2.SetMode(csproto.DecoderModeFast)
